@@ -1558,6 +1558,11 @@ impl Service {
             return;
         }
 
+        // Ignore sessions with ENRs that the configured table filter rejects
+        if !(self.config.table_filter)(&enr) {
+            return;
+        }
+
         let node_id = enr.node_id();
 
         // We never update connection direction if a node already exists in the routing table as we
